@@ -248,7 +248,6 @@ Proof.
     destruct (finish_ok t3 r (rq_offset r) (rq_size r)) as (t' & E & HI'); try lia.
     + rewrite Hg3, Hg1, Hg0. exact Hpg.
     + rewrite Hg3, Hs3, Hg1, Hs1, Hg0, Hs0. exact Hgt.
-    + rewrite Hs3, Hs1, Hs0. unfold cur_size in *. lia.
     + exact HFL3.
     + rewrite Hn3, Hn1, Hn0. exact Hnl.
     + rewrite live_livef, Hc3. unfold pre2. rewrite !livef_app, Hlivepad. cbn [livef filter tk b_free negb app].
